@@ -40,6 +40,7 @@ FAMILIES_QUICK = [
     ("K", "degC", "m"),          # temperature: K/R refusal, offset guard
     ("rad", "degree", "s"),      # angle
     ("dimensionless", "percent", "m"),  # the first operand itself dimensionless
+    ("delta_degF", "degC", "m"),  # temperature difference + point of another scale: the first operand is rescaled
 ]
 
 VALS = {
@@ -47,13 +48,16 @@ VALS = {
     ("b", "s"): "0.5", ("b", "v"): "[0.5, 3.0, 2.0]", ("b", "m"): "[[0.5], [2.0]]",
 }
 ZERO = {"s": "0.0", "v": "[0.0, 0.0, 0.0]", "m": "[[0.0], [0.0]]"}
+# partly zero: some but not all elements zero (the boundary of the documented zero exception)
+PARTZERO = {"v": "[0.0, 3.0, 2.0]", "m": "[[0.0], [2.0]]"}
 INTS = {("a", "s"): "3", ("a", "v"): "[3, 5, 8]", ("a", "m"): "[[3], [5]]",
         ("b", "s"): "2", ("b", "v"): "[2, 7, 4]", ("b", "m"): "[[2], [7]]"}
 
 # operand kinds (the nine of the property, with the variants that reach different code)
 KINDS = ["same", "samedim", "diffdim", "dimless", "percent", "scalar", "barearr",
          "zero_scalar", "zero_arr", "zero_list", "listq", "listq_other", "listq_zero_other",
-         "zero_unyt", "zero_unyt_other", "barelist", "same_int", "other_int"]
+         "zero_unyt", "zero_unyt_other", "barelist", "same_int", "other_int",
+         "partzero_arr", "partzero_list", "partzero_int", "listq_partzero_other", "listq_partzero", "partzero_unyt_other"]
 MAIN9 = ["same", "samedim", "diffdim", "dimless", "percent", "scalar", "barearr", "zero_arr", "listq"]
 
 
@@ -91,6 +95,17 @@ def operand_src(kind, which, shape, fam):
         return z if shape != "s" else None
     if kind == "barelist":
         return v if shape != "s" else None
+    if kind in ("partzero_arr", "partzero_list", "partzero_int", "partzero_unyt_other"):
+        if shape == "s":
+            return None
+        pz = PARTZERO[shape]
+        if kind == "partzero_arr":
+            return f"np.array({pz})"
+        if kind == "partzero_int":
+            return "np.arange(3)" if shape == "v" else "np.array([[0], [2]])"
+        if kind == "partzero_unyt_other":
+            return ua(pz, uB)
+        return pz
     if kind == "zero_unyt":
         return ua(z, uA)
     if kind == "zero_unyt_other":
@@ -108,6 +123,10 @@ def operand_src(kind, which, shape, fam):
         return f"[unyt_quantity(_v, {uB!r}) for _v in {items}]"
     if kind == "listq_zero_other":
         return f"[unyt_quantity(0.0, {uB!r}) for _v in {items}]"
+    if kind == "listq_partzero_other":
+        return f"[unyt_quantity(_v, {uB!r}) for _v in {PARTZERO['v']}]"
+    if kind == "listq_partzero":
+        return f"[unyt_quantity(_v, {uA!r}) for _v in {PARTZERO['v']}]"
     raise KeyError(kind)
 
 
@@ -345,7 +364,13 @@ def kernel_values(E, case, objs, factor, fsz, mul):
             if factor is not None:
                 a = np.asarray(a) * factor
             if form in ("reduce",):
-                r = uf.reduce(a, initial=np.asarray(strip(E, objs["b"])).item()) if case.get("initial") else uf.reduce(a)
+                if case.get("initial"):
+                    ini = np.asarray(strip(E, objs["b"])).item()
+                    if case.get("finit") is not None:
+                        ini = ini * case["finit"]          # initial.to_value(u)
+                    r = uf.reduce(a, initial=ini)
+                else:
+                    r = uf.reduce(a)
             elif form == "accumulate":
                 r = uf.accumulate(a)
             else:
@@ -354,6 +379,8 @@ def kernel_values(E, case, objs, factor, fsz, mul):
             b = strip(E, objs["b"])
             if case.get("swapped"):
                 a, b = b, a
+            if case.get("factor0") is not None:
+                a = np.asarray(a) * case["factor0"]
             if factor is not None:
                 b = np.asarray(b, dtype=f"f{fsz}") * np.dtype(f"f{fsz}").type(factor)
             if form == "outer":
@@ -482,19 +509,22 @@ class Ufuncs:
                 for ka, kb in itertools.product(KINDS, KINDS):
                     main = ka in MAIN9 and kb in MAIN9
                     if form == "inplace" and ka not in ("same", "samedim", "diffdim", "dimless", "percent", "barearr", "zero_arr",
-                                                        "zero_unyt", "zero_unyt_other", "same_int", "other_int"):
+                                                        "zero_unyt", "zero_unyt_other", "same_int", "other_int",
+                                                        "partzero_arr", "partzero_int", "partzero_unyt_other"):
                         continue
                     if form in ("inplace", "out") and not (main or "int" in ka or "int" in kb or "zero" in ka + kb or "listq" in ka + kb):
                         continue
-                    if form == "outer" and not main:
+                    if form == "outer" and not (main or "partzero" in ka + kb):
                         continue
-                    if "int" in ka + kb and form not in ("inplace", "out", "call"):
+                    if ("same_int" in (ka, kb) or "other_int" in (ka, kb)) and form not in ("inplace", "out", "call"):
                         continue
                     # which families / shapes
                     if thorough and (checked or main):
                         sel = [(f, s) for f in range(len(fams)) for s in range(3)]
                     elif thorough:
                         sel = [(f, (counter + f) % 3) for f in range(len(fams))]
+                    elif checked and form in ("call", "operator", "inplace", "out", "outer") and "partzero" in ka + kb and (ka in MAIN9 or kb in MAIN9):
+                        sel = [(f, (counter + f + self.seed) % 3) for f in range(len(fams))]
                     elif checked and main and form in ("call", "operator"):
                         sel = [(f, (counter + f + self.seed) % 3) for f in range(len(fams))]
                     else:
@@ -543,7 +573,8 @@ class Ufuncs:
             reps[d] = good[0]
         dims = sorted(reps)
         kinds = [("same", "diffdim"), ("diffdim", "same"), ("same", "listq_other"), ("listq_other", "same"),
-                 ("zero_unyt", "diffdim"), ("same", "other_int")]
+                 ("zero_unyt", "diffdim"), ("same", "other_int"), ("same", "listq_partzero_other"),
+                 ("listq_partzero_other", "same"), ("same", "partzero_arr"), ("partzero_list", "same")]
         unames = sorted(self.ref_canon & set(self.registry))
         for da in dims:
             for db in dims:
@@ -641,7 +672,8 @@ class Ufuncs:
             elif form == "inplace":
                 out = a
             ow = out_wire(E, out)
-            c["line_head"] = ["c01.dispatch", uname, method, str(nin)] + ops + ow + ["-"]
+            iw = ["I"] + operand_wire(E, b) if c["initial"] else ["-"]
+            c["line_head"] = ["c01.dispatch", uname, method, str(nin)] + ops + iw + ow + ["-"]
             c2 = dict(c)
             c2["ufunc"] = uname
             ke, ksh = probe_kernel(E, c2, self.fresh(c))
@@ -729,11 +761,16 @@ class Ufuncs:
             return
         res = st[1]
         unit = None if rep[1] == "none" else (core.b2f(rep[1]), core.b2f(rep[2]), rep[3])
-        factor = None if rep[4] == "none" else core.b2f(rep[4])
+        factor0 = None
+        if rep[4].startswith("first:"):
+            factor0, factor = core.b2f(rep[4][6:]), None
+        else:
+            factor = None if rep[4] == "none" else core.b2f(rep[4])
         fsz = None if rep[5] == "none" else int(rep[5])
         mul = core.b2f(rep[6])
         early = rep[7]
         effects = parse_effects(rep[8])
+        finit = None if len(rep) < 10 or rep[9] == "none" else core.b2f(rep[9])
         first = res[0] if isinstance(res, tuple) else res
         if early != "none":
             want = early == "1"
@@ -752,7 +789,12 @@ class Ufuncs:
             c2 = dict(c)
             c2["ufunc"] = c["dispatch_ufunc"]
             c2["retyped"] = ("R",) in effects
-            want_vals = kernel_values(E, c2, self.fresh(c), factor, fsz, mul)
+            c2["factor0"] = factor0
+            c2["finit"] = finit
+            fr = self.fresh(c)
+            if c["initial"] and getattr(getattr(fr.get("b"), "units", None), "base_offset", 0):
+                raise LookupError("offset-initial")   # affine conversion of the start value: C03/C08's business
+            want_vals = kernel_values(E, c2, fr, factor, fsz, mul)
         except Exception as e:  # noqa: BLE001
             chk.count("kernel-values-unavailable:" + type(e).__name__)
             want_vals = None
@@ -762,7 +804,7 @@ class Ufuncs:
             if ru[2] != unit[2]:
                 chk.disagree("c01.dispatch", f"{where}: result dimension model {unit[2]} implementation {ru[2]}")
                 return
-            if rule not in ("_multiply_units", "_divide_units"):
+            if rule not in ("_multiply_units", "_divide_units", "_floor_divide_units"):
                 if not (core.close(ru[0], unit[0], 1e-9) and core.close(ru[1], unit[1], 1e-9)):
                     chk.disagree("c01.dispatch", f"{where}: result unit model {unit} implementation {ru}")
                     return
@@ -819,7 +861,7 @@ class Ufuncs:
                                         and gen.dim_vec(self.E.unyt.Unit(a[3][0]).dimensions) == u[4]):
                     # multiply/divide results are compared by dimension only (simplification coefficient)
                     rule = self.registry.get(c["dispatch_ufunc"], "")
-                    if not (rule in ("_multiply_units", "_divide_units") and a[3] is not None
+                    if not (rule in ("_multiply_units", "_divide_units", "_floor_divide_units") and a[3] is not None
                             and gen.dim_vec(self.E.unyt.Unit(a[3][0]).dimensions) == u[4]):
                         chk.disagree("c01.effects", f"{where}: out unit after = {a[3]}, model sets {u[2:]}")
             else:
@@ -850,7 +892,7 @@ class Ufuncs:
         is_cmp = uname in CMP
         eqne = uname in ("equal", "not_equal")
         documented = None
-        if zero_bare and not c["initial"]:
+        if zero_bare:
             documented = "zero"
         elif is_cmp and dimless and not c["initial"]:
             documented = "dimensionless-comparison"
@@ -895,7 +937,7 @@ class Ufuncs:
                     key = f"eqne-not-constant|{form}"
                 chk.fail(key, f"{c['call']} between incommensurable operands answered {str(first)[:40]!r}, not all-{want}",
                          self.replay(c, f"r = {c['call']}\nassert np.all(np.asarray(r) == {want}), r\n"))
-        if documented == "zero" and st[0] == "ok" and not is_cmp:
+        if documented == "zero" and st[0] == "ok" and not is_cmp and not c["initial"]:
             # the all-zero bare operand takes the unit of its partner: the result keeps that dimension
             partner = b if (is_bare(E, a) and all_zero(a)) else a
             pd = dims_of(E, partner)
@@ -914,7 +956,7 @@ class Ufuncs:
         E = self.E
         uname, form = c["ufunc"], c["form"]
         if c["initial"]:
-            return "reduce|initial"
+            return "reduce|initial|" + ("bare" if is_bare(E, b) else "quantity")
         if uname == "divmod":
             return "table|divmod"
         for x, y in ((a, b), (b, a)):
@@ -1127,7 +1169,8 @@ AF = [
 # handlers that check with _validate_units_consistency_v2 (plain numbers pass unchecked)
 V2_FUNCS = {"clip", "fill_diagonal", "insert", "place", "put", "put_along_axis", "putmask", "searchsorted", "select"}
 
-AF_KINDS = ["same", "samedim", "diffdim", "dimless", "percent", "scalar", "barearr", "zero_arr", "zero_scalar", "listq_other"]
+AF_KINDS = ["same", "samedim", "diffdim", "dimless", "percent", "scalar", "barearr", "zero_arr", "zero_scalar", "listq_other",
+            "partzero_arr", "partzero_unyt_other", "listq_partzero_other"]
 
 
 def run_array_functions(chk, E, tier, seed, handled):
@@ -1142,8 +1185,14 @@ def run_array_functions(chk, E, tier, seed, handled):
                     Sq = operand_src(kind, "b", "s", fam)
                     if kind in ("barearr", "zero_arr"):
                         Sq = "0.5" if kind == "barearr" else "0.0"
-                    if S is None or Sq is None:
+                    if kind == "partzero_arr":
+                        Sq = "np.array([0.0, 3.0, 2.0])"      # an array-valued side argument that contains a zero
+                    if kind == "partzero_unyt_other":
+                        Sq = f"unyt_array(np.array([0.0, 3.0, 2.0]), {uB!r})"
+                    if S is None or (Sq is None and "Sq" in tmpl):
                         continue
+                    if Sq is None:
+                        Sq = "None"
                     if swap:
                         # the unit-carrying primary in the secondary's place: only for symmetric templates
                         if "Sq" in tmpl or "P[0]" in tmpl or "lambda d" in tmpl or "np.sort(S)" in tmpl or kind in ("scalar", "zero_scalar"):
@@ -1183,6 +1232,8 @@ def run_array_functions(chk, E, tier, seed, handled):
                     if st[0] == "ok":
                         argname = group[-1]
                         skind = "bare" if is_bare(E, sec) else "quantity"
+                        if any(isinstance(x_, (list, tuple)) and not is_bare(E, x_) for x_ in (prim, sec)):
+                            skind = "quantity-list"
                         key = f"arrayfunc|{fname}|{argname}|{skind}"
                         if fname in V2_FUNCS and isinstance(sec, (int, float)):
                             # one defect: _validate_units_consistency_v2 takes plain numbers to carry the reference unit
@@ -1284,7 +1335,8 @@ def run_setitem_to(chk, E, tier, seed):
             exp.append(("to", (a, b), res["to"], None, None))
     # bare values into a dimensional array
     for a in ("m", "K", "dimensionless"):
-        for vsrc, vk in (("7.0", "bare-nonzero"), ("0.0", "bare-zero"), ("np.array([7.0, 8.0, 9.0])", "bare-nonzero")):
+        for vsrc, vk in (("7.0", "bare-nonzero"), ("0.0", "bare-zero"), ("np.array([7.0, 8.0, 9.0])", "bare-nonzero"),
+                         ("np.array([0.0, 8.0, 9.0])", "bare-nonzero"), ("np.array([0.0, 0.0, 0.0])", "bare-zero")):
             setup = f"x = unyt_array([1.0, 2.0, 3.0], {a!r})\nv = {vsrc}\n"
             stmt = "x[:] = v" if "array" in vsrc else "x[0] = v"
             ns = dict(E.ns)
@@ -1351,7 +1403,7 @@ def crosscheck_tables(chk, E, X, XH):
                   "_divide_units": "divide", "_return_without_unit": "return_without_unit", "_passthrough_unit": "passthrough",
                   "_power_unit": "power", "_sqrt_unit": "sqrt", "_cbrt_unit": "cbrt", "_square_unit": "square",
                   "_reciprocal_unit": "reciprocal", "_arctan2_unit": "arctan2", "_comparison_unit": "comparison",
-                  "_invert_units": "invert", "_bitop_units": "bitop"}
+                  "_invert_units": "invert", "_bitop_units": "bitop", "_floor_divide_units": "floor_divide"}
     for (k, v), rep in zip(reg.items(), reps):
         kn = getattr(k, "__name__", repr(k))
         want = rule_names.get(v.__name__, "other:" + v.__name__)
@@ -1410,12 +1462,8 @@ def check_reference_rows(chk, M):
 
 
 WITNESSES = [
-    ("ufunc|zero-unyt-operand", "zero_unyt_operand_counterexample",
-     "r = unyt_array([0.0, 0.0, 0.0], 'm') + np.array([1.0, 2.0, 3.0])\n"),
-    ("ufunc|zero-quantity-list", "zero_quantity_list_counterexample",
-     "r = unyt_array([1.0, 2.0, 3.0], 'm') + [unyt_quantity(0.0, 's')] * 3\n"),
-    ("reduce|initial", "reduce_initial_counterexample",
-     "r = np.add.reduce(unyt_array([1.0, 2.0, 3.0], 'm'), initial=unyt_quantity(1.0, 's'))\n"),
+    ("reduce|initial|bare", "reduce_initial_bare_counterexample",
+     "r = np.add.reduce(unyt_array([1.0, 2.0, 3.0], 'm'), initial=1.0)\n"),
     ("table|divmod", "unchecked_ufuncs_counterexample",
      "r = np.divmod(unyt_array([1.0, 2.0, 3.0], 'm'), unyt_quantity(2.0, 's'))\n"),
     ("setitem|dimensionless-quantity", "C01_setitem_counterexample",
@@ -1441,15 +1489,6 @@ def run_witnesses(chk, E):
         else:
             # the model's counterexample no longer reproduces: model and code have drifted apart
             chk.disagree("witness", f"{thm}: the real code now raises on the theorem's witness")
-    ns = dict(E.ns)
-    body = "x = unyt_array([1, 2, 3], 'm')\ntry:\n    x += unyt_array([1, 2, 3], 's')\nexcept Exception:\n    pass\n"
-    exec(body, ns)
-    chk.case(("witness", "int_out_retyped_counterexample"))
-    if str(ns["x"].dtype) != "int64":
-        chk.fail("raised-but-operand-retyped", "witness of int_out_retyped_counterexample: x += y_s raised but x.dtype is now " + str(ns["x"].dtype),
-                 {"python": ENV_SRC + body + "assert str(x.dtype) == 'int64', x.dtype\n", "theorem": "int_out_retyped_counterexample"})
-    else:
-        chk.disagree("witness", "int_out_retyped_counterexample: the real code no longer retypes")
 
 
 def _ufunc_worker(args):
@@ -1524,7 +1563,7 @@ def run(tier, seed):
     run_setitem_to(chk, E, tier, seed)
     run_witnesses(chk, E)
     rule = ("enumerated: every _ufunc_registry entry x {__call__, out=, outer, operator, in-place operator, reduce, accumulate, "
-            "reduce(initial=), reduceat} x ordered pairs of 18 operand kinds (the property's nine and variants) x 6 dimension "
+            "reduce(initial=), reduceat} x ordered pairs of 24 operand kinds (the property's nine and variants incl. partly-zero bare arrays, lists and lists of quantities) x 6 dimension "
             "families x 5 shape combinations (quick: one family/shape per combination, all families for the "
             "commensurability-requiring ufuncs on the nine main kinds; thorough: all, plus every ordered pair of distinct "
             "registry dimensions); array functions with >= 2 value operands x 10 operand kinds; __setitem__/.to() over unit "
